@@ -340,7 +340,10 @@ Definition unmarshal_gz (o : opts) (items : list gitem) : nat * uresult * nat * 
     let '(m5, e5) := peek 5 inner in
     let r :=
       match e5 with
-      | Some TEOF => UNone (KEOH, []) fnd0
+      | Some TEOF =>
+          (* io.ReadFull of the 5 magic bytes: io.EOF when the member is empty,
+             io.ErrUnexpectedEOF when it ends after 1 to 4 bytes *)
+          match m5 with [] => UNone (KEOH, []) fnd0 | _ => UNone (KRead, []) fnd0 end
       | Some TErr => UNone (KRead, []) fnd0
       | None =>
           if bytes_eqb m5 s_WARC then
@@ -357,6 +360,8 @@ Definition unmarshal_gz (o : opts) (items : list gitem) : nat * uresult * nat * 
   | GBadMember csize :: rest => (0%nat, UNone (KRead, []) [], csize, rest)
   | GJunk j :: rest =>
       match o_syntax o, rest with
+      | Fail, [] => if (length j <? 5)%nat then (0%nat, UNone (KEOH, []) [], length j, [])
+                    else (0%nat, UNone (KSyntax, []) [], 0%nat, rest)
       | _, [] => ((length j - 4)%nat, UNone (KEOH, []) [], length j, [])
       | Fail, _ => (0%nat, UNone (KSyntax, []) [], 0%nat, rest)
       | _, GMember payload complete csize :: rest' => member (length j) rest' payload complete csize
